@@ -17,14 +17,14 @@ package threading
 //@   modifies nothing
 
 //@ func (rp *TaskRunner) Schedule
-//@   property C05
+//@   property C05 C12
 //@   requires chanCap(rp.limitChan) >= 1
 //@   ensures  1 <= chanLen(rp.limitChan) && chanLen(rp.limitChan) <= chanCap(rp.limitChan)
 //@   ensures  wg(rp.waitGroup) == old(wg(rp.waitGroup)) + 1
 //@   modifies chanLen(rp.limitChan), wg(rp.waitGroup)
 
 //@ func (rp *TaskRunner) Schedule closure 0
-//@   property C05
+//@   property C05 C12
 //@   flag callbacks_noheap private_channels
 //@   requires trOK(rp) && chanLen(rp.limitChan) >= 1
 //@   ensures  calls(task) == old(calls(task)) + 1
